@@ -454,7 +454,42 @@ func c12LogicalAliasesReset(p *Prog) *RuleResult {
 			r.Fail(key, p.Pos(host.Pos()), "no reset of this tracker depends on the property name starting with \""+fam.prefix+"\": a logical alias of a remembered side (e.g. "+fam.prefix+"block-start) does not stop merging, the physical shorthand is emitted after it and overrides it (or before it and is overridden), flipping the cascade winner")
 		}
 	}
-	r.Floor(4)
+	// `all: …` resets every property, the tracked longhands included
+	dAll, okAll := consts["DAll"]
+	if r.Anchor("css_ast.DAll", okAll) {
+		for _, fam := range families {
+			r.Instances++
+			key := "tracker of " + strings.TrimPrefix(fam.shorthand, "D") + " is reset by the `all` property"
+			tr := trackers[fam.shorthand]
+			ok := false
+			eachInstr(host, func(b *ssa.BasicBlock, in ssa.Instruction) {
+				st, isSt := in.(*ssa.Store)
+				if !isSt {
+					return
+				}
+				fa, isFA := st.Addr.(*ssa.FieldAddr)
+				if !isFA || fa.X != tr || !strings.HasPrefix(typeOfFieldAddr(fa), "[4]") {
+					return
+				}
+				if c, isC := st.Val.(*ssa.Const); !isC || c.Value != nil {
+					return
+				}
+				for _, f := range factsAt(b) {
+					if bo, isB := f.Cond.(*ssa.BinOp); isB && bo.Op == token.EQL && f.True {
+						if k, isK := constInt(bo.Y); isK && k == dAll {
+							ok = true
+						}
+					}
+				}
+			})
+			if ok {
+				r.OK(key, true, "whole-array reset in the case of css_ast.DAll")
+			} else {
+				r.Fail(key, p.Pos(host.Pos()), "the `all` property resets every longhand, but this tracker keeps what it remembered: `margin-top:1px;all:initial;margin-right:2px;…` is merged into one shorthand placed after `all`, which restores the margin-top that `all` had reset")
+			}
+		}
+	}
+	r.Floor(8)
 	return r
 }
 
